@@ -61,7 +61,7 @@ func c20KnownPattern(sp c20Spec, o c20Outcome) string {
 func init() {
 	// ---- end-to-end oracle: generated histories on SQLite -------------------------------------
 	register("C20", func(r *Result, rng *rand.Rand, tier string) {
-		n := 150
+		n := 400
 		if tier == "thorough" {
 			n = 6000
 		} else if tier == "search" {
